@@ -232,7 +232,7 @@ Definition log_result (objs : store) (refs_empty : bool) (tip : option bytes) (n
   : res (list bytes) :=
   if refs_empty then Err
   else match tip with
-       | None => Panic
+       | None => Err
        | Some hid =>
            match walk_history (S (S (2 * length objs))) objs [hid] [] 0 n with
            | Some ids => Ok (map hex ids)
